@@ -53,7 +53,10 @@ impl Out {
     }
     fn fail(&mut self, sig: &str, f: &str, bits: &[u32], msg: String) {
         self.fails += 1;
-        if self.fails <= 20 {
+        // at most 8 lines per (signature, function): a flood from one (possibly known) finding must not hide another
+        let n = self.count.entry(format!("fails:{sig}:{f}")).or_insert(0);
+        *n += 1;
+        if *n <= 8 {
             let b: Vec<String> = bits.iter().map(|b| format!("{b:#010x}")).collect();
             println!("FAIL {sig} {f} {} :: {msg}", b.join(" "));
         }
@@ -441,7 +444,18 @@ fn approx_sweeps(o: &mut Out, thorough: bool, seed: u64) {
             check_approx(o, "atan2", &[y.to_bits(), x.to_bits()], catch(|| fp::atan2(y, x)), (y as f64).atan2(x as f64));
         }
     }
-    for (y, x) in [(0.0f32, 0.0f32), (0.0, 1.0), (0.0, -1.0), (1.0, 0.0), (-1.0, 0.0), (1.0, 1.0), (-1.0, -1.0), (1e-20, 1.0), (1.0, 1e-20), (-0.0, 1.0)] {
+    // both arguments zero, every sign combination: the direction is undefined (std answers 0, -0, pi, -pi by sign);
+    // asserted: a finite angle of magnitude <= pi, never NaN or a panic
+    for (y, x) in [(0.0f32, 0.0f32), (-0.0, 0.0), (0.0, -0.0), (-0.0, -0.0)] {
+        o.evals += 1;
+        o.count("atan2:both arguments zero", 1);
+        match catch(|| fp::atan2(y, x)) {
+            Err(p) => o.fail("panic", "atan2", &[y.to_bits(), x.to_bits()], format!("atan2 panicked: {p}")),
+            Ok(g) if g.is_finite() && g.abs() <= 3.1415928 => {}
+            Ok(g) => o.fail("atan2-origin-not-finite", "atan2", &[y.to_bits(), x.to_bits()], format!("{CFG} atan2({y:e}, {x:e}) = {g:e}: not a finite angle")),
+        }
+    }
+    for (y, x) in [(0.0f32, 1.0f32), (0.0, -1.0), (1.0, 0.0), (-1.0, 0.0), (1.0, 1.0), (-1.0, -1.0), (1e-20, 1.0), (1.0, 1e-20), (-0.0, 1.0), (-0.0, -1.0), (1.0, -0.0), (-1.0, -0.0)] {
         check_approx(o, "atan2", &[y.to_bits(), x.to_bits()], catch(|| fp::atan2(y, x)), (y as f64).atan2(x as f64));
         o.count("atan2:axis-or-origin", 1);
     }
@@ -454,6 +468,16 @@ fn approx_sweeps(o: &mut Out, thorough: bool, seed: u64) {
     }
     for (x, y) in [(2.0f32, 2.0f32), (2.0, 0.5), (9.0, -0.5), (1.0, 3.0), (10.0, 0.0), (2.2, 2.2)] {
         check_approx(o, "powf", &[x.to_bits(), y.to_bits()], catch(|| fp::powf(x, y)), (x as f64).powf(y as f64));
+    }
+    // a zero base (either sign) is in the domain: 0^0 = 1, 0^y = 0 for y > 0, infinite for y < 0
+    for x in [0.0f32, -0.0] {
+        for y in [0.0f32, -0.0, 1e-3, 0.5, 1.0, 2.0, 2.5, 3.0, 100.0, -1e-3, -0.5, -1.0, -2.0, -2.5] {
+            // the sign of a zero or infinite result (std: odd integer powers of -0) is not compared
+            let want = (x.abs() as f64).powf(y as f64);
+            let got = catch(|| fp::powf(x, y)).map(|g| g.abs());
+            check_approx(o, "powf", &[x.to_bits(), y.to_bits()], got, want);
+            o.count("powf:zero base", 1);
+        }
     }
     // exp where the backend has it
     #[cfg(any(feature = "std", feature = "libm"))]
@@ -882,7 +906,15 @@ fn replay(f: &str, bits: &[u32]) {
         #[cfg(any(feature = "std", feature = "libm", feature = "mm"))]
         "asin" | "acos" => inv_trig(&mut o, x),
         #[cfg(any(feature = "std", feature = "libm", feature = "mm"))]
+        "atan2" if x == 0.0 && y == 0.0 => match catch(|| fp::atan2(x, y)) {
+            Err(p) => o.fail("panic", "atan2", bits, format!("atan2 panicked: {p}")),
+            Ok(g) if g.is_finite() && g.abs() <= 3.1415928 => {}
+            Ok(g) => o.fail("atan2-origin-not-finite", "atan2", bits, format!("{CFG} atan2({x:e}, {y:e}) = {g:e}: not a finite angle")),
+        },
+        #[cfg(any(feature = "std", feature = "libm", feature = "mm"))]
         "atan2" => check_approx(&mut o, "atan2", bits, catch(|| fp::atan2(x, y)), (x as f64).atan2(y as f64)),
+        #[cfg(any(feature = "std", feature = "libm", feature = "mm"))]
+        "powf" if x == 0.0 => check_approx(&mut o, "powf", bits, catch(|| fp::powf(x, y)).map(|g| g.abs()), (x.abs() as f64).powf(y as f64)),
         #[cfg(any(feature = "std", feature = "libm", feature = "mm"))]
         "powf" => check_approx(&mut o, "powf", bits, catch(|| fp::powf(x, y)), (x as f64).powf(y as f64)),
         #[cfg(any(feature = "std", feature = "libm"))]
